@@ -14,7 +14,7 @@ ID = 'C03'
 LEVEL = 'exploration'
 RUNS = {'quick': 20000, 'thorough': 400000}
 CHUNK = 50
-PROBES = ['multi_chunk', 'empty_chunk', 'cut_inside_window', 'cut_inside_lookup', 'decoy_tag_in_stackshot', 'gap_before_event_tag',
+PROBES = ['earlier_dump_other_parser_object', 'multi_chunk', 'empty_chunk', 'cut_inside_window', 'cut_inside_lookup', 'decoy_tag_in_stackshot', 'gap_before_event_tag',
           'header_plist_unaligned', 'two_kext_blocks', 'two_dyld_blocks', 'two_code_blocks', 'two_log_blocks', 'unpadded_last_block',
           'log_extends_tables', 'log_without_pid', 'strings_block_before_logs', 'xml_plists', 'no_blocks', 'unknown_block',
           'log_with_tai', 'cli_run']
@@ -48,6 +48,14 @@ def generate(rng, index, tier):
         w['chunks'].sort()
     scn['api'] = rng.pick(['kd', 'kd', 'pk'])
     scn['cli'] = index % 16 == 0
+    if w['blocks'] and rng.chance(0.25):
+        # an earlier dump, parsed first by ANOTHER parser object in the same process, that shares some payloads with this one
+        import copy
+        ew = copy.deepcopy(w)
+        rng.shuffle(ew['blocks'])
+        ew['blocks'] = ew['blocks'][:rng.randint(1, len(ew['blocks']))] + [worlds._gen_block(rng, 'dyld'), worlds._gen_block(rng, 'kexts')]
+        ew['chunks'] = []
+        scn['earlier_writer'] = ew
     return scn
 
 
@@ -132,6 +140,11 @@ def execute(scn):
 
     def bad(tag, sig, detail):
         viols.append({'tag': tag, 'sig': sig, 'detail': detail})
+    if scn.get('earlier_writer'):
+        bump('probe:earlier_dump_other_parser_object')
+        bump('fault:residue')
+        edata, _ = worlds.build_file(scn['earlier_writer'], rb[:3])
+        common.drain(lambda: tool.kdbuf_mod.KdBufParser({}, {}).parse(SimReader(edata)))
     tp, pn = {}, {}
     if scn.get('api') == 'pk':
         pk = tool.pk_mod.PyKdebugParser()
